@@ -60,7 +60,9 @@ def gen_plans(prop, base, start, count, tier):
     for k in range(start, start + count):
         name = names[k % len(names)]
         seed = plan_seed(base, k)
-        out.append(scen.SCENARIOS[name](seed, tier))
+        plan = scen.SCENARIOS[name](seed, tier)
+        plan["prop"] = prop
+        out.append(plan)
     return out
 
 
@@ -199,7 +201,7 @@ def check_property(prop, tier, seconds, max_plans, workers):
         plan = gen_plans(prop, base, stub["k"], 1, tier)[0]
         log = []
         small = orch.shrink(plan, f, orch.REPO, budget=150 if tier == "quick" else 400,
-                            known=known, log=log)
+                            known=known, log=log, seconds=90 if tier == "quick" else 300)
         path = orch.write_replay(small, f, plan["seed"], tier)
         _, hit = orch.replay(path, known=known)
         if hit is None:
@@ -377,5 +379,18 @@ def main(argv):
     return check_property(prop, tier, seconds, max_plans, workers)
 
 
+def safe_main(argv):
+    """A crash of the harness is exit 2 (never 0, never mistaken for a violation)."""
+    try:
+        return main(argv)
+    except BaseException as err:  # noqa: BLE001
+        if isinstance(err, SystemExit):
+            raise
+        import traceback
+        print("HARNESS-ERROR %s: %s" % (type(err).__name__, err))
+        traceback.print_exc()
+        return 2
+
+
 if __name__ == "__main__":
-    sys.exit(main(sys.argv[1:]))
+    sys.exit(safe_main(sys.argv[1:]))
